@@ -385,6 +385,17 @@ def n_substitute(kek, rng, group=None):
     return v
 
 
+def n_metalated_azole(mol):
+    """ring nitrogen with three neighbours, one of them a metal held by a covalent bond, in a ring that is (or can be) aromatic:
+    kekule() rewrites the N-M bond as a coordinate bond ('bad complex representation') and then needs an N-H elsewhere in the ring"""
+    for n, a in mol.atoms():
+        if a.atomic_number == 7 and a.in_ring and len(mol._bonds[n]) == 3:
+            for k, b in mol._bonds[n].items():
+                if b.order == 1 and mol._atoms[k].is_forming_single_bonds is False:
+                    return True
+    return False
+
+
 def base_molecules(rng, n_corpus, n_special=None, n_ring=0, decorate_p=0.5, normalize=True):
     """mixed workload: corpus sample + curated + ring assemblies, part of them decorated"""
     out = []
